@@ -54,7 +54,7 @@ impl Property for C10 {
          oracle = exact partial evaluation of every parametric function at p; non-trivial = a parameter multiplied with a decision variable; distinct = sha256(instance, parameter ids, assignment)"
     }
     fn required_labels(&self) -> Vec<String> {
-        ["extras", "missing", "complete", "param-in-constraint", "param-in-objective", "param-times-variable", "roundtrip", "removed-constraint", "hints", "regime=general", "regime=dyadic", "big-sorted-function", "parameter-id-twice-in-sorted-list", "missing+extra-between-declared-ids", "sweep=high-multiplicity"].iter().map(|s| s.to_string()).collect()
+        ["extras", "missing", "complete", "param-in-constraint", "param-in-objective", "param-times-variable", "roundtrip", "removed-constraint", "hints", "regime=general", "regime=dyadic", "big-sorted-function", "parameter-id-twice-in-sorted-list", "big-strictly-sorted-function-with-several-parameters", "missing+extra-between-declared-ids", "sweep=high-multiplicity"].iter().map(|s| s.to_string()).collect()
     }
     fn cases(&self, tier: Tier) -> usize {
         match tier {
@@ -216,9 +216,11 @@ impl Property for C10 {
             let mut terms: Vec<(u64, f64)> = vec![];
             let mut id = base;
             let mut twice: Vec<u64> = vec![];
+            // one case out of three: strictly ascending ids (no id twice), two to four parameters in the middle
+            let strict = seed % 3 == 0;
             for i in 0..n as u64 {
                 terms.push((id, derived_coeff(seed, i)));
-                if (derived_coeff(seed ^ 0x33, i).abs() * 16.0) as u64 % 6 != 0 {
+                if strict || (derived_coeff(seed ^ 0x33, i).abs() * 16.0) as u64 % 6 != 0 {
                     id += 1;
                 } else {
                     twice.push(id);
@@ -231,6 +233,13 @@ impl Property for C10 {
                 ctx.label("parameter-id-twice-in-sorted-list");
             }
             chosen.insert(base + (seed % n as u64).min(id - base));
+            if strict {
+                let span = id - base;
+                for k in 0..(2 + seed % 3) {
+                    chosen.insert(base + span / 3 + k * (1 + seed % 2));
+                }
+                ctx.label("big-strictly-sorted-function-with-several-parameters");
+            }
             for x in &all {
                 if chosen.contains(x) {
                     let mut p = v1::Parameter::default();
